@@ -775,6 +775,9 @@ pub mod legacy {
     pub enum LEvent {
         StartAfter,
         StartAt,
+        /// start a timer and clear it again in the same update (before its task has run once)
+        StartAfterCleared,
+        StartAtCleared,
         Clear(usize),
         Outcome(usize, TimeResponse),
     }
@@ -815,6 +818,20 @@ pub mod legacy {
                         .notify_at(SystemTime::UNIX_EPOCH + Duration::from_secs(1000 + i as u64), move |r| LEvent::Outcome(i, r));
                     model.ids.push(id);
                 }
+                LEvent::StartAfterCleared => {
+                    let i = model.ids.len();
+                    let id = caps.time.notify_after(Duration::from_millis(300 + i as u64), move |r| LEvent::Outcome(i, r));
+                    model.ids.push(id);
+                    caps.time.clear(id);
+                }
+                LEvent::StartAtCleared => {
+                    let i = model.ids.len();
+                    let id = caps
+                        .time
+                        .notify_at(SystemTime::UNIX_EPOCH + Duration::from_secs(1000 + i as u64), move |r| LEvent::Outcome(i, r));
+                    model.ids.push(id);
+                    caps.time.clear(id);
+                }
                 LEvent::Clear(i) => {
                     if let Some(id) = model.ids.get(i) {
                         caps.time.clear(*id);
@@ -833,6 +850,9 @@ pub mod legacy {
     #[derive(Clone, Copy, Debug, PartialEq, Eq, PartialOrd, Ord, Serialize, Deserialize)]
     pub enum LAct {
         Start(TKind),
+        /// start + clear within one update: the timer is cleared before its task first runs, so
+        /// the shell is never asked for it: one clear notification, outcome Cleared at once
+        StartCleared(TKind),
         Clear(usize),
         Fire(usize),
         DropRequest(usize),
@@ -864,7 +884,10 @@ pub mod legacy {
             let mut expect_clear: Vec<usize> = vec![];
             let mut expect_request: Option<usize> = None;
             let mut expect_outcome: Option<(usize, bool)> = None;
+            let mut id_from_clear: Option<usize> = None;
             let r = mc_kit::catch(|| match act {
+                LAct::StartCleared(k) if k.is_after() => Some(core.process_event(LEvent::StartAfterCleared)),
+                LAct::StartCleared(_) => Some(core.process_event(LEvent::StartAtCleared)),
                 LAct::Start(k) if k.is_after() => Some(core.process_event(LEvent::StartAfter)),
                 LAct::Start(_) => Some(core.process_event(LEvent::StartAt)),
                 LAct::Clear(i) => Some(core.process_event(LEvent::Clear(*i))),
@@ -893,6 +916,17 @@ pub mod legacy {
                     reqs.push(None);
                     refs.push(LRef { cleared: false, answered: false, dropped: false, outcome: None });
                     expect_request = Some(refs.len() - 1);
+                }
+                LAct::StartCleared(k) => {
+                    kinds.push(*k);
+                    ids.push(None);
+                    reqs.push(None);
+                    // `dropped` = there is no request the shell could answer or drop
+                    refs.push(LRef { cleared: true, answered: false, dropped: true, outcome: Some(false) });
+                    let i = refs.len() - 1;
+                    expect_clear.push(i);
+                    expect_outcome = Some((i, false));
+                    id_from_clear = Some(i);
                 }
                 LAct::Clear(i) => {
                     // exactly one clear notification for its id, every time the app asks
@@ -944,8 +978,17 @@ pub mod legacy {
                             }
                         }
                         TimeRequest::Clear { id } => {
-                            let Some(i) = ids.iter().position(|x| *x == Some(id)) else {
-                                return Err(TFail { key: "clear/unknown-id".into(), what: format!("Clear for unknown id {id:?}") });
+                            let i = match (ids.iter().position(|x| *x == Some(id)), id_from_clear) {
+                                (Some(i), _) => i,
+                                (None, Some(i)) if ids[i].is_none() => {
+                                    // the timer was never requested: its id first shows in its clear notification
+                                    ids[i] = Some(id);
+                                    if !ALL_IDS.lock().unwrap().insert(id.0) {
+                                        return Err(TFail { key: "timer-id/not-unique".into(), what: format!("timer id {} handed out twice", id.0) });
+                                    }
+                                    i
+                                }
+                                _ => return Err(TFail { key: "clear/unknown-id".into(), what: format!("Clear for unknown id {id:?}") }),
                             };
                             got_clear.push(i);
                         }
@@ -996,6 +1039,8 @@ pub mod legacy {
                 if refs.len() < max_timers {
                     steps.push(LAct::Start(TKind::After));
                     steps.push(LAct::Start(TKind::At));
+                    steps.push(LAct::StartCleared(TKind::After));
+                    steps.push(LAct::StartCleared(TKind::At));
                 }
                 for (i, t) in refs.iter().enumerate() {
                     let clears = hist.iter().filter(|a| **a == LAct::Clear(i)).count();
